@@ -2,12 +2,22 @@ import props
 
 CONFIG = {
     "runs": props.simple("c15", 24, 120),
-    "status": "full: C15_collect (nothing lost or duplicated, all interleavings, any number of workers), "
+    "status": "full, for the code after repair F10 (the main thread drops its own Sender; model parameter drop_tx = true; "
+              "theorems quantified over drop_tx also hold for the code before it): "
+              "C15_collect (nothing lost or duplicated, all interleavings, any number of workers), "
               "C15_sorted_output / C15_any_correct_sort (sorting by (index, query, result) restores the file order for any "
               "comparison on the result type and any correct sorting algorithm), C15_byte_identical and "
               "C15_file_byte_identical (every output written in any reachable state, for every j, is the single-thread "
-              "output; one work item per line of the file), C15_bounded, C15_no_deadlock, C15_terminates (j >= 1), "
+              "output; one work item per line of the file; no hypothesis on panics), C15_output_only_without_panic, "
+              "C15_bounded, C15_no_deadlock, C15_terminates, C15_no_panic_never_panics (j >= 1, no panicking query), "
+              "C15_no_block (repaired system: EVERY non-final state has an enabled action, any j, any panics), "
+              "C15_worker_panic_propagates / C15_worker_panic_reaches_panic (a panicking query: nothing is ever written and "
+              "every maximal run ends in the main thread's panic 'All workers died unexpectedly.'), C15_outcome (j >= 1: "
+              "every maximal run ends like the single-thread loop: all lines and Ok, or a panic), "
+              "C15_single_no_panic / C15_single_some_panic, "
               "C15_valid_event_step / C15_replay_run (the executable trace checker is the step relation); "
+              "C15_worker_panic_blocks_refuted is kept as a theorem about v0 (drop_tx = false, the code before the repair: "
+              "a dead worker blocks the main thread in recv() for ever, former finding K13); "
               "the OS scheduler is not modelled: a schedule is any sequence of enabled atomic actions",
     "assumptions": [
         "atomic actions of the model: queue pop under the WorkQueue mutex, compute+send on the mpsc channel (FIFO), recv, "
@@ -20,9 +30,14 @@ CONFIG = {
         "seeded delays before send (hook H4b) of up to 2 ms, 0..32 spinning threads, 1..3 repetitions",
         "hook H4b (repo_patches/H4b-multiquery-delay.patch) provides the delays and the event log; without it the check "
         "still runs: no delays are injected and trace validation is skipped (STAT traces_skipped_no_events counts those runs)",
+        "panicking operation (planted cases): six query files with the one-literal query -2147483648 (debug build: negate "
+        "overflow in the operation), count-queries and sat, j in {1,2,3,4,32}, 3 s watchdog: single-thread panics and "
+        "multi-thread panics with 'All workers died unexpectedly.' = agreement with the model (canonical completion and a "
+        "pseudo-random schedule end in PPanicked None); a run that does not return is VIOL multiq:hang (what /repo did "
+        "before repo_patches/F10-multiquery-drop-sender.patch); panics of the workers are otherwise not exercised",
         "text model of parse_queries_file is ASCII only (Unicode white space other than U+0009..U+000D, U+0020 is outside the model)",
     ],
     "rule": "cases are generated from VERIF_SEED by the harness: one case = one (model, query file, operation) with 7..21 "
-            "multi-thread runs; a case is non-trivial when the dumped circuit has at least one And and one Or node "
+            "multi-thread runs, plus 12 planted cases (6 files x 2 operations) with 5 runs each; a case is non-trivial when the dumped circuit has at least one And and one Or node "
             "(VP9 and generated models are dumped, auto1 is not); distinct = different case body (sha1)",
 }
